@@ -194,7 +194,8 @@ def generate(rng, depth=2, n_files=14, symlinks=True, outside_links=False, big=F
     if plant_secrets:
         o1 = os.path.dirname(t.root)
         o2 = os.path.dirname(o1)
-        names = ["secret.txt", "secret.html", "secret", "index.html"] + [os.path.basename(p) for p in rng.sample(sorted(t.files), min(3, len(t.files)))]
+        # ... also under the names the server opens on its own initiative (error page, index page, built-in assets, its configuration)
+        names = ["secret.txt", "secret.html", "secret", "index.html", "404.html", "style.css", "script.js", "favicon.svg", "rws.config.toml"] + [os.path.basename(p) for p in rng.sample(sorted(t.files), min(3, len(t.files)))]
         for lvl, d in (("o1", o1), ("o2", o2), ("base", t.base)):
             for n in dict.fromkeys(names):
                 mk = marker("SECRET", tag, lvl, n)
